@@ -16,7 +16,8 @@ SPEC = {
         ("match(per observation: emitting expansion first and unconditional, non-emitting search after it iff enabled)", 'match', r'^loop:(emitting-expansion|non-emitting-search)'),
         ("_match_non_emitting_states(per level: one more non-emitting step, then every live entry of the level is linked to the next observation)", 'ne_levels', r'^levels:(steps|every-live|inner-step)'),
         ("BaseMatcher.__init__(cut-offs and noise do not depend on the non_emitting_states switch or any other switch)", 'matcher_init', r'^init:'),
-        ("_match_states(the emitting expansion of an entry does not depend on how the entry was reached: stay + one call per neighbour the map offers)", 'match_states', r'^cover:')],
+        ("_match_states(the emitting expansion of an entry does not depend on how the entry was reached: stay + one call per neighbour the map offers)", 'match_states', r'^cover:'),
+        ("logprob_trans of both families is the documented formula (first-order without avoid_goingback: how an entry was reached - through non-emitting states or not - cannot change the score of its continuation)", 'trans', r'^trans:formula')],
     'bounded': [
         ('ne-on-vs-off', suites.case_C06, 1500, 200000, RULE + '; ' + 'non-trivial = the run with non-emitting states uses one on its best path or the matched indices differ', '')],
 }
